@@ -29,7 +29,8 @@ IMPORTS = "From HS Require Import Base.Prelude C08.Model."
 LEVEL = "proof"
 
 END_NS = 10 ** 12
-COQ_FILES = ["C08/Model.v", "C08/Policies.v", "C08/PolicyThms.v", "C08/Pipeline.v", "C08/IndModel.v", "C08/IndThms.v", "C08/Props.v"]
+COQ_FILES = ["C08/Model.v", "C08/Policies.v", "C08/PolicyThms.v", "C08/Pipeline.v", "C08/IndModel.v", "C08/IndThms.v",
+             "Base/PyLib.v", "Gen/QueuePolicyGen.v", "C08/GenTie.v", "C08/Props.v"]
 
 
 # --------------------------------------------------------------------------- items / policies
@@ -1520,6 +1521,11 @@ TRUSTED = [
     "axioms: none (every theorem of C08/Props.v is 'Closed under the global context')",
     "correspondence harness harness/props/c08.py (generators, handler recorders, in-Coq comparison ok_* of C08/Model.v)",
     "CPython heapq/deque/OrderedDict (outside /repo): heap with unique (key, insert_order) entries pops like a sorted list",
+    "translator harness/translate/py2coq.py + declared types (py2coq_targets.py QueuePolicyGen): FIFOQueue, LIFOQueue, PriorityQueue and the "
+    "dataclass order of _PriorityEntry are regenerated from components/queue_policy.py on every run and proved to refine the policy model "
+    "(C08/GenTie.v); idioms trusted: a capacity is float('inf') or an integer, items are their ids, deque.popleft()/pop() on an empty deque "
+    "raise, heapq on a list touched only through heappush/heappop/[0]/len is a list sorted by the element order, _get_priority(item) is an "
+    "arbitrary integer per call",
     "the world model lets ANY pending pipeline event fire next; the real engine's choice (heap order) is not modelled here, the "
     "correspondence check verifies that every recorded run is one of the world's schedules",
 ]
@@ -1541,7 +1547,12 @@ class _Sharded:
 
 
 def run(ctx):
+    from props import pygen
+    ok, info = pygen.regenerate("QueuePolicyGen")     # components/queue_policy.py translated from $HS_REPO by py2coq
+    ctx.coverage["regenerated"] = info
     ctx.prove(COQ_FILES, allowed_axioms=(), trusted_base=TRUSTED)
+    if not ok and ctx.pending_obligation_violation:
+        ctx.pending_obligation_violation["translator"] = info.get("error")
     stats = []
     for fam, n in ((FAMILIES[0], ctx.n(250, 2000)), (FAMILIES[1], ctx.n(250, 1500)), (FAMILIES[2], ctx.n(200, 1500))):
         stats.append(run_family(_Sharded(ctx, 400), fam, n))
